@@ -241,6 +241,26 @@ func cmdCheck(args []string) int {
 		}
 		addRep(r, safetySet[f])
 	}
+	if len(pc.Lockstep) > 0 {
+		set := map[string]bool{}
+		for _, f := range pc.Lockstep {
+			set[f] = true
+		}
+		for _, f := range pc.Lockstep {
+			fi, ok := pr.Funcs[f]
+			if !ok {
+				items = append(items, &checkItem{Name: f + "/exists", Kind: "missing", Text: "function verified in lockstep no longer exists", Status: "missing", Func: f})
+				continue
+			}
+			r := VerifyFunc(pr, eff, fi, VerifyOpts{View: *prop, Lockstep: set})
+			r.Key = f + " (lockstep)"
+			fnClass[f+" (lockstep x2)"] = "P"
+			for _, o := range r.Obls {
+				o.Func = f + " (lockstep x2)"
+			}
+			addRep(r, false)
+		}
+	}
 	for _, ln := range pc.Lemmas {
 		var lem *Lemma
 		for _, l := range pr.Lemmas {
